@@ -291,6 +291,34 @@ def main():
             out["oracle_bad"].append({"oracle": "combo_check", "kind": which,
                                       "what": ("a rule wrong only for the combination with %s was accepted" % which) if which != "none"
                                       else "a correct rule was rejected", "site": {"oracle": "combo_check"}})
+    # combo_check with several argnums: the arguments are differentiated JOINTLY, so a defect that only shows in a mixed
+    # second derivative (the rule for a treats b as a constant) is rejected at order 2
+    from autograd.tracer import getval as _gv
+
+    def mixed_defect(bad):
+        @primitive
+        def pm(a_, b_):
+            return a_ * b_ * b_
+        defvjp(pm, lambda ans, a_, b_: lambda g: g * ((_gv(b_) * _gv(b_)) if bad else (b_ * b_)), lambda ans, a_, b_: lambda g: g * 2.0 * a_ * b_)
+        defjvp(pm, lambda g, ans, a_, b_: g * ((_gv(b_) * _gv(b_)) if bad else (b_ * b_)), lambda g, ans, a_, b_: g * 2.0 * a_ * b_)
+        return pm
+    for bad in (False, True):
+        out["oracle_n"] += 1
+        out["oracle_keys"].append("combo_check/mixed-second-order/%s" % bad)
+        dist("combo_check")
+        try:
+            onp.random.seed(cfg["seed"] % (2 ** 31))
+            combo_check(mixed_defect(bad), (0, 1), modes=["rev"], order=2)([onp.array([0.7, 1.3])], [onp.array([2.0, 0.9])])
+            rejected = False
+        except AssertionError:
+            rejected = True
+        except Exception as ex:
+            out["oracle_bad"].append({"oracle": "combo_check", "kind": "mixed", "what": "unexpected %r" % (ex,), "site": {"oracle": "combo_check"}})
+            continue
+        if rejected != bad:
+            out["oracle_bad"].append({"oracle": "combo_check", "kind": "mixed second-order defect" if bad else "correct",
+                                      "what": "a rule whose mixed second derivative is wrong was accepted by combo_check with argnums (0, 1), order 2" if bad
+                                      else "a correct rule was rejected", "site": {"oracle": "combo_check"}})
     # correct built-in primitives at regular well-scaled points, containers included
     builtin = [("tanh", lambda x: anp.tanh(x), lambda: onp.array([0.3, -0.8, 1.1])),
                ("dot-sum", lambda x: anp.sum(anp.dot(x, x.T)), lambda: onp.array([[0.5, 1.2], [-0.7, 0.9]])),
